@@ -7,6 +7,7 @@ from vstat.guards import path_conditions, exception_name
 from vstat.cfg import cfg_of, EXIT, RAISE
 from vstat.sigs import bind
 from vstat import algebra
+from .ctor import ctor_stores
 
 HDC = "virocon.contours.HighestDensityContour"
 P = lambda n: ("param", n)
@@ -29,6 +30,10 @@ def run(prog, rep):
     joint(prog, rep)
     compute(prog, rep)
     select(prog, rep)
+    grid(prog, rep)
+    ctor_stores(prog, rep, "C02.ctor", HDC, ["model", "alpha", "limits", "deltas"])
+    rep.expect_min("C02.ctor", 2)
+    rep.expect_min("C02.grid", 5)
     rep.expect_min("C02.cellpdf", 7)
     rep.expect_min("C02.joint", 2)
     rep.expect_min("C02.pairing", 2)
@@ -386,3 +391,89 @@ def select(prog, rep):
         okw = want in pcs.of(warns[0]) and not cfg.enclosing_loops(warns[0])
     rep.check(okw, "C02.warn", f"{q}:unreachable", fn.where(warns[0]) if warns else fn.where(), "cum_sum[-1] < limit -> warnings.warn(RuntimeWarning)",
               "if the whole grid holds less than the limit a RuntimeWarning must be issued (test: total cumulative sum < limit)")
+
+
+def grid(prog, rep):
+    """Default limits / deltas and the cell-centre grids: every per-dimension quantity carries its own index."""
+    q = f"{HDC}._check_grid"
+    fn = prog.func(q)
+    rep.analysed(fn)
+    b = builder(prog, fn, inline=False)
+    pcs = path_conditions(prog, fn, b)
+    cfg = cfg_of(fn)
+    M = ("attr", SELF, "model")
+    nd = ("attr", M, "n_dim")
+    lim_attr, del_attr = ("attr", SELF, "limits"), ("attr", SELF, "deltas")
+    # default limits
+    okl = False
+    why = "no default limits found"
+    for st in cfg.all_stmts():
+        if isinstance(st, ast.Assign) and isinstance(st.value, ast.ListComp) and ("isnone", lim_attr) in pcs.of(st):
+            t = b.term(st.value, st)
+            d = ("idx", t[3], "range", (nd,))
+            why = f"default limits must be (lower, model.marginal_icdf(p, dim)) for dim in range(n_dim) with the comprehension's own dim; found {show(t)[:200]}"
+            if t[4] == ("call", G("range"), (nd,), ()) and t[2][0] == "tuple" and len(t[2][1]) == 2:
+                up = t[2][1][1]
+                if up[0] == "call" and up[1] == ("attr", M, "marginal_icdf") and len(up[2]) >= 2 and up[2][1] == d:
+                    lvl = up[2][0]
+                    okl = lvl[0] == "bin" and lvl[1] == "-" and algebra.same(lvl[2], ("const", 1)) and mentions(lvl[3], ("attr", SELF, "alpha"))
+                    why = f"the default upper limit must be a high marginal quantile 1 - c*alpha of the SAME dimension; level found {show(lvl)[:80]}"
+    rep.check(okl, "C02.grid", f"{q}:default-limits", fn.where(), "limits[dim] = (0, marginal_icdf(1 - c*alpha, dim))", why)
+    # default deltas
+    okd = False
+    why = "no default deltas found"
+    for st in cfg.all_stmts():
+        if isinstance(st, ast.Assign) and isinstance(st.targets[0], ast.Subscript) and ("isnone", del_attr) in pcs.of(st):
+            i = b.term(st.targets[0].slice, st)
+            v = b.term(st.value, st)
+            lims = b.name("limits", st, {})
+            want = ("bin", "-", ("sub", ("sub", lims, i), ("const", 1)), ("sub", ("sub", lims, i), ("const", 0)))
+            okd = i[0] == "idx" and i[2] == "range" and i[3] == (nd,) and v[0] == "bin" and v[1] == "*" and (algebra.same(v[2], want) or algebra.same(v[3], want))
+            why = f"default deltas[i] must be a fraction of the extent of limits[i] of the SAME i, for i in range(n_dim); found deltas[{show(i)[:30]}] = {show(v)[:120]}"
+    rep.check(okd, "C02.grid", f"{q}:default-deltas", fn.where(), "deltas[i] = (limits[i][1] - limits[i][0]) * relative size", why)
+    # scalar / list deltas
+    oks = okit = False
+    for st in cfg.all_stmts():
+        if isinstance(st, ast.Assign) and isinstance(st.targets[0], ast.Name) and st.targets[0].id == "deltas":
+            v = b.term(st.value, st)
+            if v[0] == "bin" and v[1] == "*" and v[3] == nd and v[2][0] == "list" and len(v[2][1]) == 1 and any(l[0] == "handler" for l in pcs.of(st)):
+                el = set(alts(v[2][1][0]))
+                oks = del_attr in el and el <= {del_attr, ("call", G("list"), (del_attr,), ())}
+            if v == ("call", G("list"), (del_attr,), ()):
+                okit = True
+    rep.check(oks and okit, "C02.grid", f"{q}:deltas-forms", fn.where(), "scalar delta -> [delta] * n_dim; iterable -> list(deltas)",
+              "a scalar cell size must be used for every dimension and a per-dimension list kept in order")
+    store = {}
+    for st in cfg.all_stmts():
+        if isinstance(st, ast.Assign) and isinstance(st.targets[0], ast.Attribute) and st.targets[0].attr in ("limits", "deltas") and isinstance(st.value, ast.Name):
+            store[st.targets[0].attr] = st.value.id
+    rep.check(store == {"limits": "limits", "deltas": "deltas"}, "C02.grid", f"{q}:stored", fn.where(), "self.limits / self.deltas hold the completed values",
+              f"the completed limits and deltas must be stored back under their own names; found {store}")
+    # the grids in _compute
+    q2 = f"{HDC}._compute"
+    f2 = prog.func(q2)
+    b2 = builder(prog, f2, inline=False)
+    c2 = cfg_of(f2)
+    okg = False
+    why = "cell-centre grid construction not found"
+    for st in c2.all_stmts():
+        if isinstance(st, ast.Assign) and isinstance(st.value, ast.Call):
+            t = b2.term(st.value, st)
+            if t[0] == "call" and t[1] == G("numpy.arange") and len(t[2]) == 3:
+                lp = c2.enclosing_loops(st)
+                if not lp:
+                    continue
+                it = b2.term(lp[-1].iter, lp[-1])
+                i = ("idx", f"{lp[-1].lineno}:{lp[-1].col_offset}", "enumerate")
+                lim = ("sub", lim_attr, i)
+                dl = ("sub", del_attr, i)
+                lo, hi, stp = t[2]
+                okg = it == ("call", G("enumerate"), (lim_attr,), ()) and lo == ("call", G("min"), (lim,), ()) and stp == dl \
+                    and algebra.same(hi, ("bin", "+", ("call", G("max"), (lim,), ()), dl))
+                why = (f"the grid of dimension i must be arange(min(limits[i]), max(limits[i]) + deltas[i], deltas[i]) with limits and deltas of the SAME i; "
+                       f"found {show(t)[:200]}")
+                if okg:
+                    ap = [s for s in lp[-1].body if isinstance(s, ast.Expr) and isinstance(s.value, ast.Call) and isinstance(s.value.func, ast.Attribute) and s.value.func.attr == "append"]
+                    okg = len(ap) == 1 and isinstance(ap[0].value.args[0], ast.Name) and ap[0].value.args[0].id == st.targets[0].id
+                    why = "each grid must be appended, in dimension order, to the list handed to cell_averaged_joint_pdf"
+    rep.check(okg, "C02.grid", f"{q2}:cell-centres", f2.where(), "grid_i = arange(min(limits[i]), max(limits[i]) + deltas[i], deltas[i])", why)
